@@ -91,6 +91,9 @@ func main() {
 	}
 	a.Tier = *tier
 	a.prop = p
+	if a.turned > 0 {
+		a.Info("comparisons_turned_round", map[string]any{"count": a.turned, "note": "comparisons written with the constant on the left were rewritten constant-right before the analysis (same program)"})
+	}
 	if a.norm != nil {
 		a.Info("helper_normalisation", map[string]any{"functions_not_in_inventory": a.norm.NewFuncs, "inlined": a.norm.Inlined,
 			"removed": a.norm.Removed, "left_alone": a.norm.Skipped,
